@@ -19,7 +19,7 @@ ID = "C12"
 LEVEL = "exploration"
 RULE = ("part A: every composition of the frame length as short-write pattern for frames of 6..12 bytes (enumerated), "
         "seeded patterns for frames up to 70 kB incl. one byte at a time; part B: 2..4 threads each sending 1..4 uniquely "
-        "tagged text/binary/ping messages on one connection with short writes; part C: 2..4 threads calling recv() while "
+        "tagged text/binary/ping messages on one connection with short writes; part C: 2..4 threads calling recv() (or recv_data(), or each thread its own of recv()/recv_data()/recv_data_frame()) while "
         "the peer sends unique messages (some fragmented, pings interleaved) and then ends the stream.  Schedules: seeded "
         "policies coop / prob(p in 1/512,1/64,1/8) / pct(d=1..3) over line-level pre-emption points inside "
         "websocket/*.py, plus the depth-1 sweep at(k) = one forced switch at the k-th traced line of thread 1 for every k "
@@ -181,6 +181,10 @@ def genC(rng):
         for m in sc["msgs"]:
             m["frags"] = 1
             m["ping_inside"] = False
+    elif rng.random() < 0.3:
+        # the other message-level receive calls: recv_data() from every thread, or each thread its own of recv() /
+        # recv_data() / recv_data_frame()
+        sc["api"] = rng.choice(("recv_data", "mixed"))
     elif rng.random() < 0.25:
         # finite socket timeout; fragments of one message trickle in at gaps shorter than the timeout, the whole message
         # taking longer than the timeout: the receiver holding the message is busy, the others wait
@@ -428,6 +432,9 @@ def runC(sc, choices):
             t += spread
         script.append({"t": t, "end": "eof"})
         sizes = [max(1, int(x)) for x in sc.get("sizes", [])]
+        api = sc.get("api") or "recv"
+        if api not in ("recv", "recv_frame", "recv_data", "mixed"):
+            raise InvalidScenario("api")
     except (KeyError, TypeError, ValueError) as e:
         raise InvalidScenario(str(e))
     peer_cfg = {"script": script, "on_ping": {"mode": "never"}, "on_close": {"mode": "never"}, "eof_on_client_eof": False}
@@ -444,7 +451,7 @@ def runC(sc, choices):
         ntimeouts = [0]
         ctrl_seen = []
 
-        use_frames = sc.get("api") == "recv_frame"
+        use_frames = api == "recv_frame"
 
         def worker(t):
             while True:
@@ -455,6 +462,12 @@ def runC(sc, choices):
                             ctrl_seen.append((f_.opcode, bytes(f_.data)))
                             continue
                         m = bytes(f_.data).decode() if f_.opcode == 1 else bytes(f_.data)
+                    elif api == "recv_data" or (api == "mixed" and t % 3 == 1):
+                        op_, d_ = c.recv_data()
+                        m = bytes(d_).decode() if op_ == 1 else bytes(d_)
+                    elif api == "mixed" and t % 3 == 2:
+                        op_, f_ = c.recv_data_frame()
+                        m = bytes(f_.data).decode() if op_ == 1 else bytes(f_.data)
                     else:
                         m = c.recv()
                     got[t].append(m)
@@ -518,7 +531,7 @@ def runC(sc, choices):
         elif (pongs != pings or others or tail) and not res.violations:
             res.violate("pongs_differ_from_pings", ctx, f"pings {len(pings)} pongs {len(pongs)} other frames {others[:3]} tail {len(tail)}")
     res.nontrivial = bool(w.k.switches)
-    res.sig = repr(("C", nthreads, res.sched))
+    res.sig = repr(("C", nthreads, sc.get("api") or "recv", res.sched))
     res.probes["part_C"] = 1
     return res
 
